@@ -386,6 +386,11 @@ def rule_R4(chk, repo):
                   'backward reachability; reachability in direction d starts at terminal 1-d and follows eids[d] -> nids[d].')
     from ..canon import canonical, DIRECTION_LOOP
     fi = canonical(repo.func('opgraph.OpGraph.from_automaton'), (), DIRECTION_LOOP)
+    from .common import position_table_view
+    from ..canon import CanonFunc
+    node_v, tables_ = position_table_view(fi.node)
+    if tables_:
+        fi = CanonFunc(fi, node_v, dict(getattr(fi, 'renamed', {}) or {}))
     edge_calls = [c for c in ast.walk(fi.node) if isinstance(c, ast.Call) and ts.callee_name(c) == 'OpGraphEdge']
     if len(edge_calls) != 1:
         raise AnalysisError(f'from_automaton: expected one OpGraphEdge construction, found {len(edge_calls)}')
@@ -397,6 +402,14 @@ def rule_R4(chk, repo):
         raise AnalysisError('from_automaton: edge construction is not inside a loop')
     # definitions local to the innermost loops around the edge construction (roles, not names)
     defs = local_defs(loops[-1].body)
+    # plain second names for an element of a table (`prev = MAP[i]`) defined in an enclosing loop, whose table is not rebound
+    # inside that loop, are expanded as well
+    for l_ in loops[:-1]:
+        rebound = {x.id for x in ast.walk(l_) if isinstance(x, ast.Name) and isinstance(x.ctx, ast.Store)}
+        for k_, v_ in local_defs(l_.body).items():
+            if k_ not in defs and isinstance(v_, (ast.Subscript, ast.Name)) and \
+                    not ({x.id for x in ast.walk(v_) if isinstance(x, ast.Name)} & (rebound - {getattr(l_.target, 'id', None)})):
+                defs[k_] = v_
     ends = expand(ec.args[1], defs)
     b = pmatch('[__MAP[__I1][__ACT[__I2].index(__E.nids[__K])], __NODE.nid]', ends)
     if b is None:
